@@ -2,13 +2,24 @@
 
    Executable model of the converter's patch stack and its proofs.
 
-   Anchors (read from /repo on 2026-09-23; the harness re-validates the model against the running
-   code on every run, tie D of harness/c13.py):
+   Anchors (the harness re-validates the model against the running code on every run, tie D of
+   harness/c13.py, and probes which CODE SHAPE is running):
      jax2onnx/plugins/_patching.py        apply_patches, AssignSpec, MonkeyPatchSpec, _MISSING
      jax2onnx/plugins/plugin_system.py    apply_monkey_patches, _PATCH_STATE, plugin_binding,
                                           _activate_full_plugin_worlds_for_body, _IN_FUNCTION_BUILD
      jax2onnx/converter/conversion_api.py _activate_plugin_worlds (ExitStack), _force_jax_x64
      jax2onnx/user_interface.py           _temporary_x64
+
+   CODE SHAPES (parameter `fixed : bool` of apply_loop / with_patches / core / amp_enter / with_amp):
+     fixed = true   /repo since commit b0781c1: `owned = attr in vars(tgt)` recorded when patching, an
+                    attribute that was not owned (or missing) restored by delattr (fallback setattr),
+                    apply loop of apply_monkey_patches inside its try.      -> PART F: every own dict
+                    restored EXACTLY for all spec lists / synchronous faults / nesting / histories,
+                    with no side condition.
+     fixed = false  the code before: restore = setattr(saved getattr value); apply loop outside the try.
+                    -> PART L: restoration up to MATERIALISATION under no_inherited_clash and MRO
+                    coherence, ref-counts only when the enter loop completes; refutations showing those
+                    conditions were necessary (the defects b0781c1 repaired).
 
    The heap.  `own t a` is the entry of attribute `a` in the __dict__ of object `t` (module, class,
    instance).  `M t` is the list of STRICT ancestors of `t` in resolution order (type.__mro__[1:] for a
@@ -1677,10 +1688,13 @@ Definition acase_ok_tol (fixed : bool) (c : acase) : bool :=
 
 (* the real spec list, dumped by the harness: predicted own / getattr differences after one
    activation stack, and the clashes that explain them *)
-Definition predicted_diffs (fixed : bool) (ml : list (target * list target)) (ol : list (target * attr * value))
-  (fr : list (list spec_d * fault)) (universe : list key) : list key * list key :=
+(* fixed_a: code shape of apply_monkey_patches, whose keys (first occurrences, empty _PATCH_STATE, enter
+   loop completing) act as one outermost frame `amp`; fixed_p: code shape of apply_patches *)
+Definition predicted_diffs (fixed_a fixed_p : bool) (ml : list (target * list target)) (ol : list (target * attr * value))
+  (amp : list spec_d) (fr : list (list spec_d * fault)) (universe : list key) : list key * list key :=
   let M := mro_of ml in let h := heap_of ol in
-  let h' := fst (with_stack M fixed (frames_of fr) (fun x => (x, Returned)) h) in
+  let h' := fst (with_patches M fixed_a (map spec_of_d amp) NoFault
+                   (with_stack M fixed_p (frames_of fr) (fun x => (x, Returned))) h) in
   (filter (fun k => negb (opt_eqb (lookup M h' (fst k) (snd k)) (lookup M h (fst k) (snd k)))) universe,
    filter (fun k => negb (opt_eqb (h' (fst k) (snd k)) (h (fst k) (snd k)))) universe).
 Definition real_clashes (ml : list (target * list target)) (ol : list (target * attr * value))
